@@ -180,7 +180,12 @@ func gridCases(ctx *core.Ctx, add func(*Case)) {
 		}
 	}
 	// range with non-positive and large steps
-	for _, a := range [][]int{{0, 3, 0}, {0, 3, -1}, {3, 0, -1}, {0, 3, -4}, {0, 100000, 1}, {5, 5, 1}, {0, 3, 1000000}} {
+	const maxI = 9223372036854775807
+	for _, a := range [][]int{{0, 3, 0}, {0, 3, -1}, {3, 0, -1}, {0, 3, -4}, {0, 100000, 1}, {5, 5, 1}, {0, 3, 1000000},
+		// steps and bounds near the limits of the integer type: the list is short but the
+		// loop arithmetic may overflow
+		{0, 1, 1 << 62}, {0, -1, -(1 << 62)}, {0, 3, maxI}, {maxI - 7, maxI, 5}, {-maxI + 7, -maxI, -5}, {maxI - 2, maxI, 1},
+		{0, maxI, maxI - 1}, {-maxI, maxI, maxI}, {1, 2, maxI - 1}} {
 		src := fmt.Sprintf("length(range(%d, %d, %d))", a[0], a[1], a[2])
 		add(&Case{Family: "range-steps", Feature: fmt.Sprintf("step=%d", a[2]), Kind: "render", Files: exprFile(src, nil), Entry: "t.m", NoIJ: true})
 		add(&Case{Family: "range-steps", Feature: fmt.Sprintf("evalexpr,step=%d", a[2]), Kind: "evalexpr", Expr: src})
@@ -265,6 +270,18 @@ func registryCases(add func(*Case)) {
 		add(&Case{Family: "duplicate-template-names", Feature: fmt.Sprintf("order=%d,failing-render", i), Kind: "render", Files: fs, Entry: "d.t", NoIJ: true})
 		add(&Case{Family: "duplicate-template-names", Feature: fmt.Sprintf("order=%d,ok-render", i), Kind: "render", Files: fs, Entry: "d.t", NoIJ: true,
 			Data: map[string]core.V{"x": core.VMap(map[string]core.V{"y": core.VMap(map[string]core.V{"z": core.VInt(1)})})}})
+	}
+	// two sources added under the same file name (AddTemplateString("", ...) twice,
+	// as the project's own tests do), different templates: an error in the
+	// first, longer one must still be located and returned
+	for i, fname := range []string{"", "same.soy"} {
+		longA := "{namespace s.a}\n" + pad + "/** @param? x */\n{template .t}\nA{$x.y.z}\n{/template}\n"
+		shortB := "{namespace s.b}\n/** @param? x */\n{template .u}\nB{$x.y.z}\n{/template}\n"
+		for j, fs := range [][]core.File{{{Name: fname, Text: longA}, {Name: fname, Text: shortB}}, {{Name: fname, Text: shortB}, {Name: fname, Text: longA}}} {
+			for _, entry := range []string{"s.a.t", "s.b.u"} {
+				add(&Case{Family: "same-file-name", Feature: fmt.Sprintf("name=%d,order=%d,entry=%s", i, j, entry), Kind: "render", Files: fs, Entry: entry, NoIJ: true})
+			}
+		}
 	}
 	// the same name in one file twice
 	add(&Case{Family: "duplicate-template-names", Feature: "same-file", Kind: "render", NoIJ: true, Entry: "d.t",
